@@ -117,6 +117,33 @@ def _cls_suffix(c):
     return out
 
 
+# ---- PDUs whose own CRC trailer looks like the start of a TLV ----------------------------------------------------
+
+
+def st_crc_lookalike():
+    """A CRC-carrying PDU with a TLV area at its end (EOF with fault location allowed, Finished, Metadata) whose CRC-16 trailer reads
+    like a TLV header (type octet of a TLV that may follow there, small length), followed by a suffix of matching size.  The two low
+    octets of the transaction sequence number are solved for (CRC-16 is affine), everything else is generated."""
+    from ..ref.crc import solve_two_octets
+
+    def build(t):
+        p, ttype, tlen, extra, entry_kind = t
+        raw = M.ref_pdu(p)
+        c = p["conf"]
+        pos = 4 + c["idw"] + c["seqw"] - 2
+        body = solve_two_octets(raw[:-2], pos, (ttype << 8) | tlen)
+        unit = body + bytes([ttype, tlen])
+        suffix = bytes((i * 37 + tlen) & 0xFF for i in range(tlen + extra))
+        cn = D.PDU_CLASS_NAMES[p["kind"]]
+        return {"entry": f"{cn}.unpack" if entry_kind == 0 else ("PduFactory.from_raw" if entry_kind == 1 else "PduFactory.from_raw_to_holder"), "cfg": {}, "raw": unit.hex(),
+                "suffix": suffix.hex(), "shape": "crc looks like a TLV header", "crc": 1}
+
+    conf = M.st_conf(crc=1).filter(lambda c: c["seqw"] >= 2)
+    kinds = st.sampled_from(["finished", "finished", "eof", "metadata"])
+    pdu = kinds.flatmap(lambda k: M.st_pdu(k, conf, small=True))
+    return st.tuples(pdu, st.sampled_from([0x06, 0x06, 0x01, 0x02, 0x05, 0x04, 0x00]), st.sampled_from([0, 1, 2, 4, 8, 3]), st.sampled_from([0, 2, 2, 1, 4]), st.integers(0, 2)).map(build)
+
+
 # ---- back-to-back units split purely by the reported lengths ----------------------------------------------------
 
 
@@ -258,6 +285,16 @@ CLAUSES.append(Clause(
     fuzz={"prop": "C09", "runs": {"thorough": 400000}, "seeded": 3},
     rule="distinct = distinct fuzzer inputs (64-bit digests) that are non-trivial by the rule of the corresponding @given clause; executions are exact to within 1000 (atheris exits through os._exit)",
     shards={"quick": 0, "thorough": 16},
+))
+
+CLAUSES.append(Clause(
+    id="C09.crc_lookalike",
+    doc="EOF / Finished / Metadata PDUs with CRC whose own CRC-16 trailer is made to read like a TLV header (type 06 / 01 / 02 / 05 / 04 / 00, small length) by solving for two "
+        "sequence-number octets, followed by a suffix of the matching size: decoded exactly as the PDU alone or refused - the trailer and what follows never become a fault location, response or option",
+    strategy=st_crc_lookalike, check=check_suffix, nontrivial=lambda c: True, classify=lambda c: [c["entry"].split(".")[0], "trailer type %s" % c["raw"][-4:-2]],
+    required=["FinishedPdu", "EofPdu", "MetadataPdu", "PduFactory", "trailer type 06", "trailer type 01"],
+    rule="every case is non-trivial by construction (2^-16 rare for random fields)",
+    n={"quick": 400, "thorough": 4000},
 ))
 
 PROPERTY = Property(
